@@ -94,6 +94,34 @@ CLAIMED["C14"] = dict(
     design="§5 C14, §7", technique="Lean 4 inductive invariant + L1 quiescence theorem + trace acceptance with shutdown at every step of creation",
     note="Same trusted base as C13. The two generations of the `enabled` signal (stale object reads) are modelled explicitly.")
 
+CLAIMED["C10"] = dict(
+    text="Lean 4 theorems over every reachable state of a model of Thread._run/stop/join/join_all_threads/MainThread.stop on a "
+         "dynamic forest (recursion flattened into work lists; repaired join and shutdown block): `stopped` is triggered only by "
+         "the last step of the shutdown block; when a thread is stopped every thread ever registered as its child has stopped, "
+         "and transitively every descendant; a child is unregistered only after it stopped; the shutdown block blocks only while "
+         "waiting for a child that has not stopped. The pinned tree violated it (failed grandchild): fixed in /repo, replay in corpus.",
+    design="§5 C10, §7", technique="Lean 4 inductive invariant (work-list coverage + guarded unregistration) + trace acceptance of real thread trees under the scheduler",
+    note="Trusted: Lean kernel + standard axioms; model ThreadTree.lean tied to threads.py by trace acceptance (thread-local steps "
+         "skipped lazily/eagerly); flattening of the stop()/join() recursion is exact only because neither exits early (argued, "
+         "checked on traces); try/finally and exception propagation are modelled; children are created by their parent's own target.")
+CLAIMED["C11"] = dict(
+    text="PARTIAL proof + monitor. Proved: stop() never blocks; visiting a thread snapshots its children and schedules a visit of "
+         "each before triggering its own please_stop; please_stop is permanent; an unstopped thread is still listed under its parent "
+         "(repaired shutdown block), MainThread.stop() ends its join phase only when every child of main and, by C10, every "
+         "registered descendant has stopped. NOT yet a theorem: the transitive 'every descendant registered when stop() was called' "
+         "over a tree that changes during the walk — decided on the implementation by the scheduler-driven monitor and the trace "
+         "acceptance. The pinned tree violated the property (stop racing a shutdown block that had detached its children): fixed.",
+    design="§5 C11, §7", technique="Lean 4 theorems (partial) + trace acceptance + C11 monitor under gated-stop schedules",
+    note="Same trusted base as C10. The quantifier over dynamic trees is covered by the monitor on explored schedules only.")
+CLAIMED["C12"] = dict(
+    text="Lean 4 theorems on the same model: the outcome is stored before `stopped` and never changes; join(u) returning a value "
+         "means u stopped and the value is exactly what the target returned; a timeout is reported only if the till fired and u has "
+         "not stopped, any other result means u stopped; a failed target is never reported as a return; join_all_threads waits for "
+         "every listed thread, returns results in input order and raises iff some join raised.",
+    design="§5 C12", technique="Lean 4 inductive invariant on join work lists + trace acceptance + value/cause-chain monitors on real runs",
+    note="Same trusted base as C10. Return values are naturals standing for arbitrary values; the exception cause chain is compared "
+         "on real runs by the monitor, not in the model.")
+
 PENDING = {}
 
 
